@@ -18,7 +18,7 @@ func init() {
 	Registry["C17"] = Spec{
 		Run: runC17, Workers: 16, GOMAXPROCS: 4,
 		QuickTimeout: 5 * time.Minute, ThoroughTimeout: 30 * time.Minute,
-		QuickFloor: 200, ThoroughFloor: 2000,
+		QuickFloor: 1500, ThoroughFloor: 30000,
 		RequiredCounters: []string{"calls_judged", "gated_calls", "CcallSpawned"},
 		Rule: "each case is one CallConcurrently call with scripted functions; the space n<=4 functions x {nil entry, return nil, return unique error, return context.Canceled value} x {caller held at the post-spawn schedule point until every function finished, free} is enumerated completely " +
 			"(coverage.exhaustive_subspace), larger n, wait-for-context functions, start delays and caller cancellation are seed-sampled; non-trivial = at least two functions with different outcomes; distinct = distinct (script, observed completion order, result) shapes",
@@ -86,7 +86,7 @@ func runC17(w *mon.Worker) {
 	w.AddCounter("enumerated_subspace_cases", enumerated)
 	// sampled: perturbation on, larger n, waits, delays, caller cancellation
 	mon.SetProb(0.3, verifhook.BcastEnter, verifhook.BcastExit, verifhook.CcallSpawned)
-	for i := 0; i < w.Share(w.Scale(3000, 100000)); i++ {
+	for i := 0; i < w.Share(w.Scale(12000, 300000)); i++ {
 		r := w.Rng
 		n := 1 + r.IntN(7)
 		sc := ccScript{Gate: r.IntN(4) == 0}
